@@ -17,12 +17,17 @@
      in-order stream (Props/C04.v), i.e. every replica applies the same set.
      Any number of pairwise concurrent honest edits made on a common text give
      the same text in every execution order (C01_text_batch_converges).
-   PARTIAL: the commutation premises for array move/delete/set, text styles
-   and tree are not proved; for those C01 is decided by the
+     Styles (Text.Style / RemoveStyle, model Crdt/TextStyle.v, engine textsty):
+     an honest style operation is a scan over the range; two concurrent style
+     operations leave observably the same attribute table on every character; a
+     style operation and a concurrent edit agree on every character that is still
+     visible.
+   PARTIAL: the commutation premises for array move/delete/set and tree are
+   not proved; for those C01 is decided by the
    differential structure engines (model = code) plus the convergence oracle on
    real multi-client histories. *)
 From Coq Require Import List Permutation.
-From YV Require Import Crdt.RGAList Crdt.ElemRHT Proofs.SEC Proofs.RGAProofs Proofs.ERHTProofs Proofs.ERHTCommute Proofs.ERHTDecode Proofs.ERHTRemove Proofs.RGACommuteGen Crdt.TextRGA Proofs.TextProofs Proofs.TextBatch.
+From YV Require Import Crdt.RGAList Crdt.ElemRHT Proofs.SEC Proofs.RGAProofs Proofs.ERHTProofs Proofs.ERHTCommute Proofs.ERHTDecode Proofs.ERHTRemove Proofs.RGACommuteGen Crdt.TextRGA Proofs.TextProofs Proofs.TextBatch Crdt.RHT Crdt.TextStyle Proofs.RHTProofs Proofs.TextSplice Proofs.TextStyleProofs.
 
 Theorem C01_convergence_from_commutation :
   forall (S O : Type) (apply : S -> O -> option S) (hb : O -> O -> Prop) (Inv : S -> Prop),
@@ -123,3 +128,30 @@ Theorem C01_text_batch_converges : forall ops1 ops2 l,
   option_map TextRGA.visible (run_te ops1 (Some l)) = option_map TextRGA.visible (run_te ops2 (Some l)).
 Proof. intros ops1 ops2 l HP Hg. split; [now apply TextBatch.batch_converges|now apply batch_same_text]. Qed.
 Print Assumptions C01_text_batch_converges.
+
+(* text styles: what an honest style operation does *)
+Theorem C01_text_style_is_scan : forall pf pt ops t v l A,
+  honest pf pt t v l -> style pf pt ops t v l A = Some (hstyle pf pt ops t v l A).
+Proof. exact style_is_hstyle. Qed.
+Print Assumptions C01_text_style_is_scan.
+
+(* text styles: two concurrent style operations commute, character by character *)
+Theorem C01_text_styles_commute : forall pfa pta opsa ta va pfb ptb opsb tb vb l A,
+  ids_distinct l -> all_at ta opsa -> all_at tb opsb -> ta <> tb ->
+  forall tk off,
+  req (attr_get (hstyle pfb ptb opsb tb vb l (hstyle pfa pta opsa ta va l A)) tk off)
+      (attr_get (hstyle pfa pta opsa ta va l (hstyle pfb ptb opsb tb vb l A)) tk off).
+Proof. exact style_style_commute. Qed.
+Print Assumptions C01_text_styles_commute.
+
+(* text styles: a style operation and a concurrent edit agree on what stays visible *)
+Theorem C01_text_style_edit_commute : forall pfa pta opsa ta va pfb ptb valsb tb vb l lb A,
+  ids_distinct l -> (forall c, In c l -> c_tk c <> tb) ->
+  honest pfa pta ta va l -> honest pfb ptb tb vb l ->
+  pos_tk_ne pfa tb -> pos_tk_ne pta tb -> known va tb = false ->
+  edit pfb ptb valsb tb vb l = Some lb ->
+  exists A1 A2,
+    style pfa pta opsa ta va lb A = Some A1 /\ style pfa pta opsa ta va l A = Some A2 /\
+    forall c, In c lb -> c_rm c = None -> attr_get A1 (c_tk c) (c_off c) = attr_get A2 (c_tk c) (c_off c).
+Proof. exact style_edit_commute_live. Qed.
+Print Assumptions C01_text_style_edit_commute.
